@@ -257,6 +257,19 @@ def build(spec: Spec, hashes: list[int] | None = None) -> Built:
     return Built(spec, classes, {cls: i for i, cls in enumerate(classes)}, tymap=tymap)
 
 
+def rebuild_plain(v: Any, b: "Built"):
+    """The same program built again by CALLING the classes (as a user writes a program by hand): no gengy_* metadata, no synthesis
+    context, plain lists."""
+    if type(v) in b.index:
+        names = getattr(type(v), "__gengy_field_names__", ())
+        return type(v)(*[rebuild_plain(getattr(v, n), b) for n in names])
+    if isinstance(v, (list, GengyList)):
+        return [rebuild_plain(x, b) for x in v]
+    if isinstance(v, tuple):
+        return tuple(rebuild_plain(x, b) for x in v)
+    return v
+
+
 def retarget(b: "Built", ci: int, fn: str, new):
     """Re-declare field `fn` of class `ci` the documented way (`Cls.__init__.__annotations__[fn] = T`) on ALREADY BUILT
     classes, and keep the spec in step."""
